@@ -278,3 +278,205 @@ func zzLayoutDecorationsBody() {
 	zz.Assert(okLocal, "LocalSize execution mode differs from @workgroup_size")
 	zz.Reach("end")
 }
+
+// ---- reference SPIR-V evaluator (32-bit integer / boolean scalars and vectors, straight-line
+// functions). Written from the SPIR-V specification; undefined behaviour (division by zero,
+// signed overflow of OpSDiv/OpSRem) is reported through zz.Assert. ----
+
+type zzVal struct {
+	comps  []uint32
+	isBool bool
+}
+
+type zzSPV struct {
+	insts   []zzInst
+	vecLen  map[uint32]int    // vector type id -> count (scalars: absent)
+	consts  map[uint32]zzVal  // constant id -> value
+	boolTy  map[uint32]bool   // type id is bool or vector of bool
+}
+
+func zzLoadSPV(out []byte) (*zzSPV, bool) {
+	_, insts, ok := zzParseSPIRV(out)
+	if !ok {
+		return nil, false
+	}
+	s := &zzSPV{insts: insts, vecLen: map[uint32]int{}, consts: map[uint32]zzVal{}, boolTy: map[uint32]bool{}}
+	for _, in := range insts {
+		switch in.op {
+		case 20: // OpTypeBool
+			s.boolTy[in.words[0]] = true
+		case 23: // OpTypeVector
+			s.vecLen[in.words[0]] = int(in.words[2])
+			if s.boolTy[in.words[1]] {
+				s.boolTy[in.words[0]] = true
+			}
+		case 43: // OpConstant (32-bit)
+			if len(in.words) == 3 {
+				s.consts[in.words[1]] = zzVal{comps: []uint32{in.words[2]}}
+			}
+		case 41: // OpConstantTrue
+			s.consts[in.words[1]] = zzVal{comps: []uint32{1}, isBool: true}
+		case 42: // OpConstantFalse
+			s.consts[in.words[1]] = zzVal{comps: []uint32{0}, isBool: true}
+		case 44: // OpConstantComposite
+			var v zzVal
+			for _, c := range in.words[2:] {
+				cv, ok := s.consts[c]
+				if !ok || len(cv.comps) != 1 {
+					v.comps = nil
+					break
+				}
+				v.comps = append(v.comps, cv.comps[0])
+				v.isBool = cv.isBool
+			}
+			if v.comps != nil {
+				s.consts[in.words[1]] = v
+			}
+		case 46: // OpConstantNull
+			n := 1
+			if l, ok := s.vecLen[in.words[0]]; ok {
+				n = l
+			}
+			s.consts[in.words[1]] = zzVal{comps: make([]uint32, n), isBool: s.boolTy[in.words[0]]}
+		}
+	}
+	return s, true
+}
+
+func zzB(b bool) uint32 {
+	if b {
+		return 1
+	}
+	return 0
+}
+
+// zzRunFunction executes function fnID on args; returns the OpReturnValue operand.
+func (s *zzSPV) zzRunFunction(fnID uint32, args []zzVal) (zzVal, bool) {
+	env := map[uint32]zzVal{}
+	for k, v := range s.consts {
+		env[k] = v
+	}
+	inFn := false
+	argi := 0
+	for _, in := range s.insts {
+		if in.op == 54 { // OpFunction
+			inFn = in.words[1] == fnID
+			continue
+		}
+		if !inFn {
+			continue
+		}
+		get := func(id uint32) zzVal {
+			v, ok := env[id]
+			zz.Assert(ok, "SPIR-V id used before its definition")
+			return v
+		}
+		bin := func(f func(a, b uint32) uint32, isBool bool) {
+			a, b := get(in.words[2]), get(in.words[3])
+			zz.Assert(len(a.comps) == len(b.comps), "operand shapes differ")
+			r := zzVal{isBool: isBool, comps: make([]uint32, len(a.comps))}
+			for i := range a.comps {
+				r.comps[i] = f(a.comps[i], b.comps[i])
+			}
+			env[in.words[1]] = r
+		}
+		switch in.op {
+		case 55: // OpFunctionParameter
+			if argi < len(args) {
+				env[in.words[1]] = args[argi]
+			}
+			argi++
+		case 248: // OpLabel
+		case 170: // OpIEqual
+			bin(func(a, b uint32) uint32 { return zzB(a == b) }, true)
+		case 171:
+			bin(func(a, b uint32) uint32 { return zzB(a != b) }, true)
+		case 166: // OpLogicalOr
+			bin(func(a, b uint32) uint32 { return a | b }, true)
+		case 167: // OpLogicalAnd
+			bin(func(a, b uint32) uint32 { return a & b }, true)
+		case 168: // OpLogicalNot
+			a := get(in.words[2])
+			r := zzVal{isBool: true, comps: make([]uint32, len(a.comps))}
+			for i := range a.comps {
+				r.comps[i] = a.comps[i] ^ 1
+			}
+			env[in.words[1]] = r
+		case 169: // OpSelect cond, a, b
+			c, a, b := get(in.words[2]), get(in.words[3]), get(in.words[4])
+			r := zzVal{isBool: a.isBool, comps: make([]uint32, len(a.comps))}
+			for i := range a.comps {
+				ci := c.comps[0]
+				if len(c.comps) == len(a.comps) {
+					ci = c.comps[i]
+				}
+				if ci == 1 {
+					r.comps[i] = a.comps[i]
+				} else {
+					r.comps[i] = b.comps[i]
+				}
+			}
+			env[in.words[1]] = r
+		case 128:
+			bin(func(a, b uint32) uint32 { return a + b }, false)
+		case 130:
+			bin(func(a, b uint32) uint32 { return a - b }, false)
+		case 132:
+			bin(func(a, b uint32) uint32 { return a * b }, false)
+		case 134: // OpUDiv
+			bin(func(a, b uint32) uint32 {
+				zz.Assert(b != 0, "OpUDiv by zero: undefined behaviour")
+				if b == 0 {
+					return 0
+				}
+				return a / b
+			}, false)
+		case 137: // OpUMod
+			bin(func(a, b uint32) uint32 {
+				zz.Assert(b != 0, "OpUMod by zero: undefined behaviour")
+				if b == 0 {
+					return 0
+				}
+				return a % b
+			}, false)
+		case 135: // OpSDiv
+			bin(func(a, b uint32) uint32 {
+				zz.Assert(b != 0, "OpSDiv by zero: undefined behaviour")
+				zz.Assert(!(a == 0x80000000 && b == 0xFFFFFFFF), "OpSDiv overflow: undefined behaviour")
+				if b == 0 || (a == 0x80000000 && b == 0xFFFFFFFF) {
+					return 0
+				}
+				return uint32(int32(a) / int32(b))
+			}, false)
+		case 138: // OpSRem: sign of the result follows operand 1
+			bin(func(a, b uint32) uint32 {
+				zz.Assert(b != 0, "OpSRem by zero: undefined behaviour")
+				zz.Assert(!(a == 0x80000000 && b == 0xFFFFFFFF), "OpSRem overflow: undefined behaviour")
+				if b == 0 || (a == 0x80000000 && b == 0xFFFFFFFF) {
+					return 0
+				}
+				return uint32(int32(a) % int32(b))
+			}, false)
+		case 139: // OpSMod: sign of the result follows operand 2
+			bin(func(a, b uint32) uint32 {
+				zz.Assert(b != 0, "OpSMod by zero: undefined behaviour")
+				if b == 0 || (a == 0x80000000 && b == 0xFFFFFFFF) {
+					return 0
+				}
+				r := int32(a) % int32(b)
+				if r != 0 && (r < 0) != (int32(b) < 0) {
+					r += int32(b)
+				}
+				return uint32(r)
+			}, false)
+		case 254: // OpReturnValue
+			return get(in.words[0]), true
+		case 253, 56: // OpReturn, OpFunctionEnd
+			return zzVal{}, false
+		default:
+			zz.Fail("reference SPIR-V evaluator: opcode not modelled")
+			return zzVal{}, false
+		}
+	}
+	return zzVal{}, false
+}
